@@ -10,11 +10,11 @@ Deductive part (real code symbolically executed, SHA-256 an uninterpreted functi
 * `Ledger.maybe_verify_transaction`, run on a duck-typed ledger whose header store is the REAL `Headers` object over
   an arbitrary symbolic header file of arbitrary size (`Headers.get/get_raw_header/_read/deserialize` are executed),
   a real `Transaction` and a recording fake network: after the call `is_verified` is EXACTLY
-  "fold(txid, branch, pos) == bytes 36..68 of the 112-byte header at that height" whenever 0 < height < number of
+  "0 <= pos < 2**len(branch) and fold(txid, branch, pos) == bytes 36..68 of the 112-byte header at that height" whenever 0 < height < number of
   headers and a branch was supplied (directly or fetched), whatever the flag was before; a height without header, a
   reply without branch, or a non-hex branch never turn the flag on; the height and position recorded are the ones
   checked; the proof dict's own `block_height` is ignored.  Branch of ANY length (`verify[any]`), every reply shape with
-  length 1 (`verify[shapes]`), lengths 0, 2, 3, 4 unrolled in the thorough tier (`verify[k]`).
+  the empty branch of a one-transaction block (`verify[shapes]`), lengths 1..4 unrolled in the thorough tier (`verify[k]`).
 * `Ledger._single_batch` (call-site precondition): every transaction of a batch reaches maybe_verify_transaction as a
   fresh object (flag off) with the height the wallet asked for and its own proof (`single_batch`).
 * completeness: for blocks of 1, 2, 3, 5, 6, 7 transactions (quick tier; 1..17, 31..33, 47, 48, 63, 64 in the thorough tier)
@@ -25,17 +25,34 @@ Deductive part (real code symbolically executed, SHA-256 an uninterpreted functi
   branch (`alter-tx-or-branch[1..3]`, thorough 4, 5, 6); flipping position bit j < k changes the root unless the sibling at
   level j equals the running hash (`alter-pos[1..2]`, thorough 3, 4, 5).
 
-Known finding C08-P1 (known_findings.d/C08.json, reported through proof `position-bound[1..64]`): the position is not
-bound by the proof where it does not influence the fold: (a) bits at or above the branch length are ignored (a
-1-transaction block verifies with ANY position), (b) at a level where the last node was duplicated the sibling equals
-the running hash, so flipping that bit gives the same root (3-transaction block, index 2, position 3 is accepted and
-recorded).  The clause "altering the position makes verification fail" is kept without exclusion in
-`position-bound[1..64]`; `alter-pos[*]` and `blocks[1..64]` exclude exactly the predicate `position_bit_is_blind`.
+* reorganisation (`reorg.update_headers`): the real `Ledger.update_headers` over a scripted header store whose connect()
+  refuses k = 1..2 times and then writes n headers from height h = start - k on, with the REAL transaction cache class
+  (LRUCacheWithMetrics / TransactionCacheItem / Transaction) pre-filled with two transactions at arbitrary heights and flags
+  and a request in flight: afterwards no cached transaction recorded at a height >= h is still verified (it would be served
+  by request_transactions(cached=True) without being checked against the replaced header); sync and subscription entry,
+  any announced height; IndexError exactly when the rewind goes below genesis.
+
+Positions outside the tree the branch describes (pos < 0 or pos >= 2**len(branch); repaired in /repo by 5d0e8a6, recorded as
+fixed finding C08-P1a) are part of the exact clause: such a proof is never verified, whatever it folds to.
+
+Known finding C08-P1 (known_findings.d/C08.json, reported through proof `position-bound[1..64]`): a position bit BELOW the
+branch length is not bound by the proof at a level where the last node of an odd level was duplicated — there the sibling
+equals the running hash, so flipping that bit gives the same root (3-transaction block, index 2, position 3 is accepted and
+recorded); inherent to the Bitcoin Merkle tree.  The clause "altering the position makes verification fail" is kept without
+exclusion in `position-bound[1..64]`; `alter-pos[*]` and `blocks[1..64]` exclude exactly the predicate `position_bit_is_blind`.
+
+Known finding C08-P2 (reported through `reorg.cached-lookup`): a subscription update announcing a header for a height the
+wallet already has, linking to the wallet's header below it (competing block at the same height), overwrites the stored header
+without any refusal: the cache is not dropped and the transaction cached as verified at that height is still served verified.
 
 Bounded stand-ins (run-time contract checks on the real code with the real SHA-256, never counted as proved):
+`reorg.cached-lookup` — real chain of 8 linked headers (real Headers.connect, linkage validation), every block's transaction
+looked up through the real request_transactions(cached=True), chain reorganised from every fork height to competing chains of
+every length up to 10 (sync and subscription entry), looked up again against a server that still hands out the old proofs:
+verified again iff the header now stored at that height commits to it (88 scenarios, 7 in the known finding);
 `blocks[1..64]` — every block size 1..64, every index: the genuine proof is accepted and every single mutation (each branch
 element, neighbours swapped, branch truncated / extended, 16 single-bit changes of the transaction, 7 other heights, every
-position bit outside the known finding) is rejected, through the real maybe_verify_transaction; `position-bound[1..64]` —
+position bit outside the known finding, positions outside the tree) is rejected, through the real maybe_verify_transaction; `position-bound[1..64]` —
 every position bit 0..branch length of every such proof; `claimtrie.verify_proof` — the legacy claim-trie proof checker on
 4 small tries (genuine proofs accepted, 215 single mutations refused).
 
@@ -44,16 +61,20 @@ SHA-256 over strings), so violations are reported by the run-time contract check
 """
 import asyncio
 import hashlib
+import logging
 from binascii import hexlify, unhexlify
 from pyvc.api import *
 from pyvc.speclib import forall, matches
-from lbry.wallet.ledger import Ledger
-from lbry.wallet.header import Headers
+from lbry.wallet.ledger import Ledger, TransactionCacheItem
+from lbry.utils import LRUCacheWithMetrics
+from lbry.wallet.header import Headers, UnvalidatedHeaders
+from io import BytesIO
 from lbry.wallet.transaction import Transaction, Output, Input, TXORef
 from lbry.wallet.hash import TXRefImmutable
 from lbry.wallet.script import InputScript
 from lbry.wallet import claim_proofs
 
+logging.getLogger('lbry.wallet.ledger').setLevel(logging.ERROR)     # the run-time cases drive ~1700 reorganisations: no warning each
 H32 = TBytes(length=32)
 # solver budget per query for the proofs of the quick tier (seconds; they discharge in well under a second): a refuted
 # obligation that mentions the uninterpreted SHA-256 is usually answered 'unknown' by all three solvers, so with the default 10 s a
@@ -131,6 +152,18 @@ def fold_wire(leaf, sib, pos):
 
 def fold_any(leaf, sib, pos):
     return fold_n(flat(leaf), sib, pos, len(sib))
+
+
+@rec_spec(result=TInt())
+def tree_width(n):
+    """2**n for n >= 0 (a rec_spec only because `2 ** n` with a symbolic n forks an inexact-float case for n < 0, which the
+    engine refuses in a plain specification; inside a rec_spec that case is simply outside the domain)"""
+    return 2 ** n
+
+
+def inside_tree(pos, sib):
+    """a position that the tree described by the branch has: 0 <= pos < 2**len(branch) (any other one is an altered position)"""
+    return 0 <= pos < tree_width(len(sib))
 
 
 def is_hex(s):
@@ -375,9 +408,9 @@ async def verify_harness(version, locktime, prior, height, size, blob, sib, pos,
 def verify_clauses(fold_of, all_hex_of):
     """clauses of the statement; fold_of(leaf, sib, pos) is the oracle fold (iterative or recursive form)"""
 
-    def ensures_verified_iff_branch_folds_to_header_root(version, locktime, height, size, blob, sib, pos, shape, result):
+    def ensures_verified_iff_position_inside_and_branch_folds_to_header_root(version, locktime, height, size, blob, sib, pos, shape, result):
         checkable = has_branch(shape) and 0 < height < size and not result[4]
-        return (not checkable) or result[0] == (fold_of(tx_leaf(version, locktime), sib, pos) == root_at(blob, height))
+        return (not checkable) or result[0] == (inside_tree(pos, sib) and fold_of(tx_leaf(version, locktime), sib, pos) == root_at(blob, height))
 
     def ensures_never_turned_on_without_header_or_branch(prior, height, size, shape, result):
         unverifiable = (not 0 < height < size) or (not has_branch(shape)) or result[4]
@@ -396,7 +429,8 @@ def verify_clauses(fold_of, all_hex_of):
         return (len(asked) <= 1 and forall(0, len(asked), lambda i: asked[i] == (txid, height))
                 and result[5] == txid and ((shape != 'supplied' and shape != 'no-branch') or len(asked) == 0))
 
-    return dict(ensures_verified_iff_branch_folds_to_header_root=staticmethod(ensures_verified_iff_branch_folds_to_header_root),
+    return dict(ensures_verified_iff_position_inside_and_branch_folds_to_header_root=staticmethod(
+                    ensures_verified_iff_position_inside_and_branch_folds_to_header_root),
                 ensures_never_turned_on_without_header_or_branch=staticmethod(ensures_never_turned_on_without_header_or_branch),
                 ensures_only_non_hex_raises=staticmethod(ensures_only_non_hex_raises),
                 ensures_height_and_position_recorded=staticmethod(ensures_height_and_position_recorded),
@@ -414,9 +448,10 @@ def make_blob(size, roots):
 
 def verify_samples(ks):
     for k in ks:
-        for pos in sorted({0, 1, 2 ** k - 1, 2 ** k} | set(range(0, min(2 ** k, 8)))):
+        # inside the tree, just outside, far outside with the low bits of a genuine position, negative
+        for pos in sorted({0, 1, 2, 2 ** k - 1, 2 ** k, 2 ** 200 + 2 ** k - 1, -1, -2 ** k} | ({5} if k > 2 else set())):
             sibs = [bytes([i + 3, pos % 256]) * 16 for i in range(k)]
-            leaf = tx_leaf(1, pos)
+            leaf = tx_leaf(1, pos % 2 ** 32)
             good = fold(leaf, sibs, pos)
             for size, height in ((10, 5), (10, 9), (10, 10), (10, 0), (10, -1), (6, 5), (5, 5), (0, 0), (1, 1), (2, 1)):
                 for where in ('right', 'next', 'prev', 'nowhere'):
@@ -432,7 +467,7 @@ def verify_samples(ks):
                             for bh in (height, height + 1, 3):
                                 if bh != height and (shape != 'supplied' or where == 'right' or prior):
                                     continue
-                                yield dict(version=1, locktime=pos, prior=prior, height=height, size=size,
+                                yield dict(version=1, locktime=pos % 2 ** 32, prior=prior, height=height, size=size,
                                            blob=make_blob(size, roots), sib=[wire(s) for s in sibs], pos=pos, bh=bh, shape=shape)
         # the proof's own block_height names a header that WOULD match: must not be used
         sibs = [bytes([9]) * 32] * k
@@ -445,7 +480,7 @@ def verify_samples(ks):
 
 
 def _verify_any_samples():
-    for s in verify_samples((0, 2, 5, 6)):
+    for s in verify_samples((1, 2, 5, 6)):
         if s['shape'] in ('supplied', 'fetched'):
             yield s
 
@@ -459,7 +494,7 @@ proof("C08", "verify[any]")(type('VerifyAny', (), dict(
                 pos=TInt(), bh=TInt(), shape=TOneOf(TConst('supplied'), TConst('fetched'))),
     requires=staticmethod(_blob_matches_size), run=staticmethod(verify_harness), samples=staticmethod(_verify_any_samples),
     timeout=QUICK_BUDGET,
-    note="branch lengths 0, 2, 5, 6 x header at the right / neighbouring / no height x heights inside, at and beyond the tip",
+    note="branch lengths 1, 2, 5, 6 x header at the right / neighbouring / no height x heights inside, at and beyond the tip",
     __doc__="maybe_verify_transaction with a branch of ANY length (loop invariant inside), supplied or fetched, over an arbitrary "
             "header file of any size, any earlier value of the flag: verified iff the fold equals the Merkle root field of the "
             "header AT THAT HEIGHT; never turned on without header / after a non-hex branch; height and position recorded",
@@ -477,15 +512,17 @@ def make_verify_proof(name, k, shapes, thorough=False):
                     pos=TInt(), bh=TInt(), shape=TOneOf(*[TConst(s) for s in shapes])),
         requires=staticmethod(_blob_matches_size), run=staticmethod(verify_harness), samples=staticmethod(samples),
         thorough_only=thorough, timeout=THOROUGH_BUDGET if thorough else QUICK_BUDGET,
-        note="positions 0..7 and around 2**k x 10 (file size, height) pairs inside / at / beyond the tip and at height <= 0 x matching "
+        note="positions inside the tree, 2**k, 2**200 + 2**k - 1, -1, -2**k x 10 (file size, height) pairs inside / at / beyond the tip and at height <= 0 x matching "
              "root at the right, next, previous or no height x reply shapes x flag on/off before x proof dict naming another height",
         __doc__=f"maybe_verify_transaction, branch of length {k} unrolled, reply shapes {', '.join(shapes)}: same clauses as "
                 f"verify[any] against the iterative oracle",
         **verify_clauses(fold_wire, all_hex_list))))
 
 
-make_verify_proof('shapes', 1, SHAPES)          # proof supplied / fetched because none or an empty one was supplied / reply without branch
-for _k in (0, 2, 3, 4):
+# every reply shape (proof supplied / fetched because none or an empty one was supplied / reply without branch) with the empty
+# branch of a one-transaction block; longer branches: verify[any] (quick) and the unrolled lengths of the thorough tier
+make_verify_proof('shapes', 0, SHAPES)
+for _k in (1, 2, 3, 4):
     make_verify_proof(str(_k), _k, ('supplied', 'fetched'), thorough=True)
 
 
@@ -531,20 +568,18 @@ class SingleBatch:
     timeout = QUICK_BUDGET
 
     def ensures_each_verified_iff_own_proof_at_asked_height(size, blob, sib_a, pos_a, sib_b, pos_b, result):
-        want_a = HEIGHT_A < size and fold_any(HASH_A, sib_a, pos_a) == root_at(blob, HEIGHT_A)
-        want_b = HEIGHT_B < size and fold_any(HASH_B, sib_b, pos_b) == root_at(blob, HEIGHT_B)
+        want_a = HEIGHT_A < size and inside_tree(pos_a, sib_a) and fold_any(HASH_A, sib_a, pos_a) == root_at(blob, HEIGHT_A)
+        want_b = HEIGHT_B < size and inside_tree(pos_b, sib_b) and fold_any(HASH_B, sib_b, pos_b) == root_at(blob, HEIGHT_B)
         return result[0][0] == want_a and result[1][0] == want_b
 
-    def ensures_heights_recorded_as_asked(result):
-        return result[0][1] == HEIGHT_A and result[1][1] == HEIGHT_B and result[2] == 2
-
-    def ensures_one_request_for_the_batch(result):
-        return result[3] == [[TXID_A, TXID_B]] and result[4] == []
+    def ensures_heights_recorded_as_asked_and_one_request_for_the_batch(result):
+        return (result[0][1] == HEIGHT_A and result[1][1] == HEIGHT_B and result[2] == 2
+                and result[3] == [[TXID_A, TXID_B]] and result[4] == [])
 
     def samples():
         for k in range(0, 4):
             sibs = [bytes([i + 1]) * 32 for i in range(k)]
-            for pa in (0, 2 ** k - 1):
+            for pa in (0, 2 ** k - 1, 2 ** k, -1):
                 ra, rb = fold(HASH_A, sibs, pa), fold(HASH_B, sibs, 1)
                 for size in (0, 3, 4, 7, 8, 20):
                     for roots in ({HEIGHT_A: ra, HEIGHT_B: rb}, {HEIGHT_A: rb, HEIGHT_B: ra}, {HEIGHT_A: ra}, {HEIGHT_B: rb}, {},
@@ -699,9 +734,9 @@ def make_alter_content_proof(lo, hi, quick):
 
 
 def position_bit_is_blind(leaf, sib, pos, j):
-    """predicate of known finding C08-P1: flipping bit j of the position cannot change the fold — the bit is at or above
-    the branch length, or the sibling at that level equals the running hash (duplicated last node of an odd level)"""
-    return j >= len(sib) or running_hashes(leaf, sib, pos)[j] == sib[j]
+    """predicate of known finding C08-P1: flipping bit j of the position cannot change the fold although the bit is below the
+    branch length — the sibling at that level equals the running hash (duplicated last node of an odd level)"""
+    return j < len(sib) and running_hashes(leaf, sib, pos)[j] == sib[j]
 
 
 def flip_bit(pos, j):
@@ -784,7 +819,7 @@ def flip_hex(s, byte):
 
 
 def block_position_bit_is_blind(n, index, j):
-    """known finding C08-P1 on a genuine proof of transaction `index` of an n-transaction block"""
+    """known finding C08-P1 on a genuine proof of transaction `index` of an n-transaction block (bit j below the branch length)"""
     locktimes, leaves, blob = block(n)
     return position_bit_is_blind(leaves[index], merkle_branch(leaves, index), index, j)
 
@@ -813,9 +848,11 @@ def single_mutations(n, index):
         out.append((f"version bit {4 * b}", 1 ^ (1 << (4 * b)), lt, BLOCK_HEIGHT, branch, index))
     for h in (BLOCK_HEIGHT - 1, BLOCK_HEIGHT + 1, FILE_SIZE - 1, FILE_SIZE, FILE_SIZE + 7, 0, -1):
         out.append((f"height {h}", 1, lt, h, branch, index))
-    for j in range(k):
+    for j in list(range(k + 2)) + [64]:
         if not block_position_bit_is_blind(n, index, j):
             out.append((f"position bit {j}", 1, lt, BLOCK_HEIGHT, branch, flip_bit(index, j)))
+    for alt in (index - 2 ** k, -1 - index, index + 3 * 2 ** k):
+        out.append((f"position {alt}", 1, lt, BLOCK_HEIGHT, branch, alt))
     return out
 
 
@@ -825,9 +862,11 @@ class Blocks:
     genuine proof is accepted by maybe_verify_transaction over a header file holding the block's root, with the position
     recorded, and EVERY single mutation of it is rejected: each branch element (a bit in its first / last byte, neighbours
     swapped), branch truncated at either end or extended, 16 single-bit changes of the transaction, 7 other heights (next,
-    previous, tip, beyond the tip, 0, negative), every position bit that known finding C08-P1 does not cover"""
+    previous, tip, beyond the tip, 0, negative), every position bit 0..branch length+1 and bit 64 that known finding C08-P1
+    does not cover (bits at or above the branch length are NOT excluded), 3 positions shifted out of the tree by a multiple of
+    2**length or complemented (negative ones included)"""
     bounded_only = True
-    note = "all 2080 (block size 1..64, index) pairs x all single mutations listed in the doc string (about 45 per pair)"
+    note = "all 2080 (block size 1..64, index) pairs x all single mutations listed in the doc string (about 50 per pair)"
     inputs = dict(n=TInt(1, 64), index=TInt(0, 63))
 
     def requires(n, index):
@@ -863,9 +902,11 @@ class Blocks:
 @proof("C08", "position-bound[1..64]")
 class PositionBound:
     """BOUNDED stand-in for the clause "altering the position makes verification fail", stated WITHOUT exclusion: for every block
-    of 1..64 transactions, every index and every position bit 0..branch length, the genuine proof with that bit flipped is
-    rejected.  The real code violates it exactly where `block_position_bit_is_blind` holds: KNOWN FINDING C08-P1 (the check
-    prints KNOWN-FINDING; a violation outside the predicate still alarms)"""
+    of 1..64 transactions, every index and every position bit 0..branch length (the last one is outside the tree), the genuine
+    proof with that bit flipped is rejected.  The real code violates it exactly where `block_position_bit_is_blind` holds (a
+    bit below the branch length at a level whose sibling is the duplicated node itself; 390 of the 13846 cases): KNOWN FINDING
+    C08-P1 (the check prints KNOWN-FINDING; a violation outside the predicate — e.g. an accepted bit at or above the branch
+    length, repaired by 5d0e8a6 — still alarms)"""
     bounded_only = True
     note = "all 2080 (block size, index) pairs x every bit 0..branch length (14 tsd. cases)"
     inputs = dict(n=TInt(1, 64), index=TInt(0, 63), j=TInt(0, 6))
@@ -886,6 +927,294 @@ class PositionBound:
             for index in range(n):
                 for j in range(len(merkle_levels(block(n)[1]))):
                     yield dict(n=n, index=index, j=j)
+
+
+# ---------------------------------------------------------------- reorganisation: nothing stays verified in the cache above the fork
+
+class ScriptedHeaders:
+    """the header store as update_headers sees it: connect() answers from a script (0 = refused, n > 0 = n headers written from
+    `start` on, replacing whatever was stored there); len() follows Headers._write: max(old size, start + n)"""
+
+    def __init__(self, size, script):
+        self.size = size
+        self.script = script
+        self.done = 0
+        self.calls = []
+
+    def __len__(self):
+        return self.size
+
+    @property
+    def height(self):
+        return self.size - 1
+
+    async def connect(self, start, headers):
+        added = self.script[self.done]
+        self.done += 1
+        self.calls.append((start, added))
+        if added > 0 and start + added > self.size:
+            self.size = start + added
+        return added
+
+
+class ReorgNetwork:
+    """serves headers as long as the script of the header store has answers left, then 'nothing newer'"""
+
+    def __init__(self, headers):
+        self.headers = headers
+        self.header_requests = []
+
+    async def retriable_call(self, function, *args, **kwargs):
+        return await function(*args, **kwargs)
+
+    async def get_headers(self, height, count=10000, b64=False):
+        self.header_requests.append(height)
+        return {'hex': '00' if self.headers.done < len(self.headers.script) else ''}
+
+
+class RecordingDb:
+    def __init__(self):
+        self.rewinds = []
+
+    async def rewind_blockchain(self, above_height):
+        self.rewinds.append(above_height)
+        return True
+
+
+class RecordingController:
+    def __init__(self):
+        self.events = []
+
+    def add(self, event):
+        self.events.append(event)
+
+
+class ReorgLedger:
+    """duck-typed `self` for update_headers / request_transactions: exactly the attributes they touch; the transaction cache is
+    the REAL class Ledger.__init__ uses (without the prometheus counters)"""
+    get_root_of_merkle_tree = staticmethod(Ledger.get_root_of_merkle_tree)
+    maybe_verify_transaction = Ledger.maybe_verify_transaction
+    _single_batch = Ledger._single_batch
+    request_transactions = Ledger.request_transactions
+    update_headers = Ledger.update_headers
+
+    def __init__(self, headers, network):
+        self.headers = headers
+        self.network = network
+        self.db = RecordingDb()
+        self._on_header_controller = RecordingController()
+        self._tx_cache = LRUCacheWithMetrics(64)
+
+    def get_id(self):
+        return 'lbc_verif'
+
+
+class _Flag:
+    """stands for asyncio.Event inside TransactionCacheItem (only set() is reached)"""
+
+    def __init__(self):
+        self.flag = False
+
+    def set(self):
+        self.flag = True
+
+    def is_set(self):
+        return self.flag
+
+
+@model_for(asyncio.Event)
+def _event(interp, st, args, kwargs):
+    from pyvc.ops import lift
+    yield from interp.call(st, lift(_Flag), [], {})
+
+
+def start_height(size, given):
+    """where update_headers starts connecting: the announced height, or the local length when none / a future one is announced"""
+    return size if given is None or given > size else given
+
+
+async def reorg_harness(size, given, sub, k, n, ha, va, hb, vb):
+    refusals = pick_in(k, 1, 2)
+    headers = ScriptedHeaders(size, [0] * refusals + [n])
+    ledger = ReorgLedger(headers, ReorgNetwork(headers))
+    # any earlier history of the cache: two fetched transactions at arbitrary heights with arbitrary flags, one request in flight
+    ledger._tx_cache['a'] = TransactionCacheItem(Transaction(version=1, locktime=1, is_verified=va, height=ha))
+    ledger._tx_cache['b'] = TransactionCacheItem(Transaction(version=1, locktime=2, is_verified=vb, height=hb))
+    ledger._tx_cache['c'] = TransactionCacheItem()
+    raised = False
+    try:
+        if given is None:
+            await Ledger.update_headers(ledger)
+        else:
+            await Ledger.update_headers(ledger, height=given, headers='00', subscription_update=sub)
+    except IndexError:
+        raised = True
+    left = []
+    for key in ('a', 'b', 'c'):
+        if key in ledger._tx_cache:
+            item = ledger._tx_cache.cache[key]
+            if item.tx is not None:
+                left.append((item.tx.height, item.tx.is_verified))
+    return left, raised, headers.calls, len(headers)
+
+
+@proof("C08", "reorg.update_headers")
+class ReorgUpdateHeaders:
+    """the real update_headers over a scripted header store: headers.connect refuses k = 1..2 times, then writes n >= 1 headers
+    from height h = start - k on (headers at heights >= h replaced); the transaction cache (real LRUCacheWithMetrics holding real
+    TransactionCacheItem / Transaction objects) held two transactions at ARBITRARY heights with arbitrary flags and a request
+    in flight.  Afterwards no cached transaction recorded at a height >= h is still verified (it would be served by
+    request_transactions(cached=True) without being checked against the new header); sync and subscription entry, announced
+    height arbitrary; IndexError only when the rewind goes below genesis"""
+    inputs = dict(size=TInt(0), given=TOpt(TInt(0)), sub=TBool(), k=TInt(1, 2), n=TInt(1), ha=TInt(), va=TBool(), hb=TInt(), vb=TBool())
+    note = "local length 0..6 x sync / announced height 0..7 x k = 1, 2 x n = 1, 3 x cached heights around the fork x flags"
+    timeout = QUICK_BUDGET
+    run = reorg_harness
+
+    def ensures_nothing_verified_at_or_above_the_lowest_replaced_height(size, given, k, result):
+        h = start_height(size, given) - k
+        ok = True
+        for height, verified in result[0]:
+            ok = ok and not (verified and height >= h)
+        return result[1] or ok
+
+    def ensures_replaced_from_start_minus_refusals(size, given, k, n, result):
+        h = start_height(size, given) - k
+        return result[1] or (len(result[2]) == k + 1 and result[2][k] == (h, n) and result[2][0] == (h + k, 0) and result[3] >= h + n)
+
+    def ensures_raises_only_below_genesis(size, given, k, result):
+        return result[1] == (start_height(size, given) - k < 0)
+
+    def samples():
+        for size in (0, 1, 2, 3, 6):
+            for given in (None, 0, 1, 2, size - 1, size, size + 1):
+                if given is not None and given < 0:
+                    continue
+                for k in (1, 2):
+                    h = start_height(size, given) - k
+                    for n in (1, 3):
+                        for ha, hb in ((h, h - 1), (h + 1, h), (h - 1, h + k), (-2, 0)):
+                            for va, vb in ((True, True), (True, False), (False, True)):
+                                yield dict(size=size, given=given, sub=given is not None and size % 2 == 0, k=k, n=n, ha=ha, va=va, hb=hb, vb=vb)
+
+
+class ChainHeaders(UnvalidatedHeaders):
+    """the real header store with linkage validation only (the regtest configuration), any genesis block"""
+    genesis_hash = None
+
+
+CHAIN_LENGTH = 8
+CHAIN_TXS = [_concrete_tx(i + 1) for i in range(CHAIN_LENGTH)]      # block i of the original chain holds CHAIN_TXS[i] alone
+
+
+def chain_headers(length, fork, branch):
+    """serialised linked headers 0..length-1; blocks below `fork` are the original chain (Merkle root = hash of CHAIN_TXS[i]),
+    blocks from `fork` on belong to the competing branch and commit to something else"""
+    out = []
+    prev = b'0' * 64
+    for i in range(length):
+        b = branch if i >= fork else 0
+        root = CHAIN_TXS[i].hash if b == 0 and i < CHAIN_LENGTH else dsha(bytes([i, b]))
+        raw = Headers.serialize(dict(version=1, prev_block_hash=prev, merkle_root=hexlify(root[::-1]), claim_trie_root=hexlify(bytes(32)),
+                                     timestamp=1500000000 + i, bits=0x207fffff, nonce=1000 * b + i))
+        out.append(raw)
+        prev = Headers.hash_header(raw)
+    return out
+
+
+class StaleServer:
+    """a wallet server that keeps answering with the transactions' proofs from the ORIGINAL chain (one-transaction blocks: empty
+    branch, position 0) while serving the headers of the chain it was told to serve"""
+
+    def __init__(self):
+        self.serve = []
+        self.batches = []
+        self.header_requests = []
+
+    async def retriable_call(self, function, *args, **kwargs):
+        return await function(*args, **kwargs)
+
+    async def get_transaction_batch(self, txids, restricted=True):
+        self.batches.append(list(txids))
+        return {tx.id: (hexlify(tx.raw).decode(), {'merkle': [], 'pos': 0, 'block_height': i})
+                for i, tx in enumerate(CHAIN_TXS) if tx.id in txids}
+
+    async def get_headers(self, height, count=10000, b64=False):
+        self.header_requests.append(height)
+        return {'hex': hexlify(b''.join(self.serve[height:height + count])).decode()}
+
+
+def tip_replaced_without_refusal(fork, newlen, mode):
+    """predicate of known finding C08-P2: a subscription update announces a header at a height the wallet already has and that
+    header links to the wallet's header below it, so headers.connect overwrites the stored header without any refusal — the
+    reorganisation branch of update_headers (which drops the transaction cache) is never entered"""
+    return mode == 'subscription' and newlen <= CHAIN_LENGTH and fork == newlen - 1
+
+
+@proof("C08", "reorg.cached-lookup")
+class ReorgCachedLookup:
+    """BOUNDED stand-in (real request_transactions / _single_batch / maybe_verify_transaction / update_headers / Headers.connect
+    with linkage validation / LRUCacheWithMetrics, real SHA-256): a wallet with a real chain of 8 linked headers looks up the
+    transaction of every block through request_transactions(cached=True) (all verified and cached), then the chain is
+    reorganised from height `fork` on to a competing chain of `newlen` headers (entry through a plain sync or through a
+    subscription update announcing the new tip), then the same transactions are looked up again while the server still
+    hands out the old proofs.  A transaction comes back verified iff the header NOW stored at its height still commits to it:
+    every transaction of a replaced block — the lowest replaced one included — must come back unverified.
+    Known finding C08-P2 (`tip_replaced_without_refusal`) is reported from here"""
+    bounded_only = True
+    note = "original chain of 8 blocks x fork height 1..8 x new chain length fork+1..10 x sync / subscription entry (about 75 scenarios)"
+    inputs = dict(fork=TInt(1, 8), newlen=TInt(2, 10), mode=TStr())
+
+    def requires(fork, newlen, mode):
+        return 1 <= fork <= CHAIN_LENGTH and fork < newlen <= CHAIN_LENGTH + 2 and mode in ('sync', 'subscription')
+
+    async def run(fork, newlen, mode):
+        old, new = chain_headers(CHAIN_LENGTH, CHAIN_LENGTH, 0), chain_headers(newlen, fork, 1)
+        store = ChainHeaders(':memory:')
+        store.io = BytesIO()
+        store._size = 0
+        connected = await store.connect(0, b''.join(old))
+        server = StaleServer()
+        ledger = ReorgLedger(store, server)
+        want = tuple((CHAIN_TXS[i].id, i) for i in range(1, CHAIN_LENGTH))
+        first = {}
+        async for txs in ledger.request_transactions(want, cached=True):
+            first.update(txs)
+        server.serve = new
+        if mode == 'sync':
+            await ledger.update_headers()
+        else:
+            await ledger.update_headers(height=newlen - 1, headers=hexlify(new[newlen - 1]).decode(), subscription_update=True)
+        second = {}
+        async for txs in ledger.request_transactions(want, cached=True):
+            second.update(txs)
+        committed = []
+        for i in range(1, CHAIN_LENGTH):
+            stored = await store.get(i)
+            committed.append(stored['merkle_root'] == hexlify(CHAIN_TXS[i].hash[::-1]))
+        return (connected, [first[CHAIN_TXS[i].id].is_verified for i in range(1, CHAIN_LENGTH)],
+                [second[CHAIN_TXS[i].id].is_verified for i in range(1, CHAIN_LENGTH)], committed)
+
+    def ensures_all_verified_before_the_reorganisation(result):
+        return result[0] == CHAIN_LENGTH and result[1] == [True] * (CHAIN_LENGTH - 1)
+
+    def ensures_verified_again_iff_the_header_now_stored_commits_to_it(result):
+        return result[2] == result[3]
+
+    def ensures_scenario_replaces_the_blocks_it_is_meant_to(fork, newlen, mode, result):
+        # sanity of the scenario, not a clause of the statement: which stored headers stopped committing to their transaction
+        # (Headers._write does not truncate: above a shorter new chain the old headers stay)
+        if tip_replaced_without_refusal(fork, newlen, mode):
+            return result[3] == [i != newlen - 1 for i in range(1, CHAIN_LENGTH)]
+        if mode == 'sync' and newlen <= CHAIN_LENGTH:
+            return result[3] == [True] * (CHAIN_LENGTH - 1)         # nothing newer on offer: nothing happens
+        return result[3] == [i < fork or i >= newlen for i in range(1, CHAIN_LENGTH)]
+
+    def samples():
+        for mode in ('sync', 'subscription'):
+            for fork in range(1, CHAIN_LENGTH + 1):
+                for newlen in range(fork + 1, CHAIN_LENGTH + 3):
+                    yield dict(fork=fork, newlen=newlen, mode=mode)
 
 
 # ---------------------------------------------------------------- bounded stand-in: legacy claim-trie proof checker
@@ -1032,9 +1361,15 @@ TRUSTED = [
     "int.to_bytes(4, 'little') for the version / locktime of the harness transaction",
     "call-site contract of the network: retriable_call(f, *args) returns what f(*args) returns; get_merkle / "
     "get_transaction_batch return ARBITRARY replies (symbolic) — nothing a server sends is trusted",
+    "reorg.update_headers: Headers.connect is replaced by its call-site contract (returns 0 when the first header does not link, "
+    "else the number written from `start` on; len() becomes max(len, start + n) as Headers._write does) — the real connect runs "
+    "in the bounded stand-in; asyncio.Event inside TransactionCacheItem is a plain flag",
     "asyncio.Lock() in Headers.__init__ is not touched by the functions under contract (no chunk_getter installed)",
 ]
 NOT_DECIDED = [
+    "reorganisations deeper than 2 refusals deductively (the loop of update_headers is unrolled by the script; the bounded stand-in "
+    "goes to depth 7); that the wallet DATABASE forgets verified flags above the fork (Database.rewind_blockchain is a stub that "
+    "returns True: transactions already saved keep is_verified in sqlite) — outside the cache clause, seen while reading",
     "that the header stored at a height is itself valid (proof of work, linkage): property C07; here the header file is arbitrary",
     "mutations deductively: only transaction hash / branch content for branch lengths 1..3 (quick), 4..6 (thorough) and position "
     "bits for lengths 1..2 (quick), 3..5 (thorough), under the no-collision hypothesis; branch-length mutations (they need more than collision-freeness: no hash "
